@@ -1281,7 +1281,7 @@ func Test@MKExternal(t *testing.T) {
 	}
 }
 
-func Example@MK() {
+func Example_e@MK() {
 	fmt.Println(@PKGNAME.@N1(2).@M1())
 	// Output: 4
 }
